@@ -1050,8 +1050,92 @@ def fam_scale(case):
     return _scale_hist(case[1])
 
 
+def fam_routes(case):
+    """Other routes to the same circuit: the `adjacency=` option with a
+    resistance matrix that also carries values on NON-links (e.g. a full
+    distance matrix), `update_resistances` with such a matrix, the same array
+    edited in place and handed in again, integer resistances.  The links are
+    those of the adjacency; all quantities must equal those of the network
+    built from the link-only matrix."""
+    from pyunicorn.core import ResNetwork
+    n, mask, perm, assign = case
+    links = _links_from(n, mask, assign, perm)
+    viol = []
+    Rl = np.array(C.matrix_of(n, links), dtype=float)
+    A = (Rl != 0).astype(np.int8)
+    full = Rl.copy()
+    for i in range(n):
+        for j in range(n):
+            if i != j and not A[i, j]:
+                full[i, j] = 3.5 + 0.25 * ((i + j) % 3)
+    other = Rl * 2.0
+
+    def measures(net):
+        return {
+            "effective_resistance": np.array(_er_matrix(net, n), float),
+            "vertex_current_flow_betweenness": np.array(
+                [net.vertex_current_flow_betweenness(i) for i in range(n)],
+                float),
+            "edge_current_flow_betweenness": np.asarray(
+                net.edge_current_flow_betweenness(), float),
+            "admittive_degree": np.asarray(net.admittive_degree(), float),
+            "average_effective_resistance": float(
+                net.average_effective_resistance()),
+        }
+
+    def build(route):
+        if route == "adjacency=":
+            return ResNetwork(full.copy(), adjacency=A.copy(),
+                              silence_level=3)
+        if route == "update(full)":
+            net = ResNetwork(other.copy(), silence_level=3)
+            net.update_resistances(full.copy())
+            return net
+        if route == "update(same array edited in place)":
+            M = other.copy()
+            net = ResNetwork(M, silence_level=3)
+            measures(net)
+            M[...] = Rl
+            net.update_resistances(M)
+            return net
+        if route == "attribute edited in place":
+            net = ResNetwork(other.copy(), silence_level=3)
+            measures(net)
+            net.resistances *= 0.5
+            net.update_resistances(net.resistances)
+            return net
+        raise ValueError(route)
+
+    ev = 0
+    try:
+        ref = measures(_mk(n, links))
+    except Exception as ex:   # noqa
+        return {"viol": [], "evals": 1, "sig": "ref-raises",
+                "excluded": {"reference route raises: %s" %
+                             type(ex).__name__: 1}}
+    for route in ("adjacency=", "update(full)",
+                  "update(same array edited in place)",
+                  "attribute edited in place"):
+        try:
+            got = measures(build(route))
+        except Exception as ex:   # noqa
+            viol.append(V("ResNetwork.%s:raises" % route, repr(ex), repr(ex),
+                          "a network"))
+            continue
+        for k, e in ref.items():
+            ev += 1
+            if not _close(got[k], e):
+                viol.append(V("ResNetwork.%s:route:%s" % (k, route),
+                              "%d nodes, links %s: differs from the network "
+                              "built from the link-only matrix" % (
+                                  n, sorted(links)), got[k], e))
+    return {"viol": viol, "evals": ev, "trivial": False,
+            "sig": (n, mask, tuple(assign))}
+
+
 FAMILIES = {"scale": fam_scale, "circuit": fam_circuit, "laws": fam_laws,
-            "complex": fam_complex, "history": fam_history}
+            "complex": fam_complex, "history": fam_history,
+            "routes": fam_routes}
 
 
 # ---------------------------------------------------------------------------
@@ -1108,6 +1192,11 @@ def run(ctx):
                         seen.add(key)
                         cases.append((n, m, list(p), a))
     cases.sort(key=lambda c: (c[0], bin(c[1]).count("1")))
+    ctx.explore("routes", [c for c in cases
+                           if list(c[2]) == list(range(c[0]))][
+                               ::(1 if thorough else 3)],
+                desc="adjacency= with values on non-links, update with a full "
+                "matrix / the same array edited in place, vs link-only matrix")
     ctx.explore("circuit", cases, desc="connected graphs x relabellings x "
                 "resistance assignments vs exact rational circuit model")
     cases = []
